@@ -731,10 +731,10 @@ fn try_run_func(
         let mut status = 0;
         for cr in cr_list {
             status = cr.status;
-            stdout.push_str(cr.stdout.trim());
-            stdout.push(' ');
-            stderr.push_str(cr.stderr.trim());
-            stderr.push(' ');
+            // (what a captured function wrote is what its commands wrote,
+            // one after the other)
+            stdout.push_str(&cr.stdout);
+            stderr.push_str(&cr.stderr);
         }
         let mut cr = CommandResult::new();
         cr.status = status;
